@@ -1988,7 +1988,7 @@ class UserActions(object):
 
     # We don't set the values of formula columns, they should just recalculate themselves
     if not col.is_formula():
-      row_ids, values = col.rename_choices(renames)
+      row_ids, values = col.rename_choices(renames, table.row_ids)
       values = [encode_object(v) for v in values]
       self.BulkUpdateRecord(table_id, row_ids, {col_id: values})
 
